@@ -610,6 +610,19 @@ def build(ctx):
                     target='ExtMemoryPool::destroy + Backend::destroy (region list walk, any number of regions) + userPool/inUserPool', source=BE))
     jobs.append(Job('largeobj.size_guard', C, 'h_lloc', route='LF', defines=['REMAP', 'LLOC'], timeout=600, inputs=['IN_size', 'IN_alignment'],
                     target='MemoryPool::getFromLLOCache: size + headers + alignment, alignToBin and the wrapped-size guard (with the real LargeObjectCache::alignToBin, alignUp, log2)', source=FE))
+    # MemoryPool::getFromLLOCache as a whole with the thread's TLS possibly missing (TLS creation was refused earlier - a state this property is about): the extraction and the
+    # harness are the ones of C17 (specs/C17: extract / extract_aligned / extract_lloc write their .inc files into THIS check's work directory; c17.c section LLOC_PLACE)
+    import importlib.util
+    sp17 = importlib.util.spec_from_file_location('spec_c17_for_c18', os.path.join(HERE, '..', 'C17', 'spec.py'))
+    c17 = importlib.util.module_from_spec(sp17)
+    sp17.loader.exec_module(c17)
+    s17, f17 = c17.extract(ctx)
+    c17.extract_aligned(ctx, s17, f17)
+    c17.extract_lloc(ctx, s17, f17)
+    sliced += [x for x in s17 if 'getFromLLOCache' in x or 'isLargeObject' in x]
+    fired['c17.lloc'] = f17.get('lloc', {})
+    jobs.append(Job('largeobj.place.no_tls', os.path.join(HERE, '..', 'C17', 'c17.c'), 'h_lloc_place', route='LF', defines=['LLOC', 'LLOC_PLACE', 'LLOC_ALIGN_EXP=6'], timeout=600,
+                    target='MemoryPool::getFromLLOCache, whole function, with tls == NULL or not (cache-line alignment): no access through a missing TLS, NULL from the block sources is passed on', source=FE))
     jobs.append(Job('pool.create_destroy.args', C, 'h_poolapi', route='LF', defines=['POOLAPI'], timeout=300, target='rml::pool_create_v1 + pool_destroy + pool_reset (policy validation, failure paths)', source=FE))
     jobs += [
         Job('posix_memalign.args', C, 'h_memalign', route='LF', defines=['API'], target='scalable_posix_memalign + isPowerOfTwoAtLeast', source=FE),
